@@ -210,7 +210,7 @@ def gen_programs(ctx):
     rng, out = ctx.rng, []
     for nn in (True, False):
         tag = "nonneg" if nn else "neg"
-        for _ in range(ctx.n(450, 30000)):
+        for _ in range(ctx.n(450, 15000)):
             out.append((f"random-{tag}", nn, D.gen_random(rng, 3, nn)))
         d1 = list(D.enum_depth1())
         if ctx.quick:
